@@ -66,13 +66,16 @@ type c18World struct {
 
 // c18Setup: table t(id pk, a, b) [or composite key (id, uid), a] with two rows
 // of symbolic non-key cells and concrete keys.
-func c18Setup(composite bool) *c18World {
+func c18Setup(composite bool, auto ...bool) *c18World {
 	at.Init()
 	undo.RegisterUndoLogManager(undomysql.NewUndoLogManager())
 	undo.UndoConfig.OnlyCareUpdateColumns = vrt.Choice("onlyCareUpdateColumns", 2) == 1
 	d := &aDB{table: "t", cols: []string{"id", "a", "b"}, pk: []int{0}, auto: -1, failAt: -1, nextAuto: 100}
 	if composite {
 		d.cols, d.pk = []string{"id", "uid", "a"}, []int{0, 1}
+	}
+	if len(auto) > 0 && auto[0] {
+		d.auto = 0 // id is AUTO_INCREMENT
 	}
 	mk := func(tag string, key int64) aRow {
 		r := aRow{cells: make([]int64, len(d.cols)), present: true}
@@ -140,12 +143,24 @@ var c18Stmts = []c18Stmt{
 	{"update-order-limit", "UPDATE t SET a = ? WHERE b > ? ORDER BY a DESC LIMIT 1", 2, true, false, nil},
 	{"delete-order-limit-arg", "DELETE FROM t WHERE a <> ? ORDER BY b LIMIT ?", 2, true, false, map[int]int64{1: 1}},
 	{"delete-all-rows", "DELETE FROM t WHERE a = a", 0, true, false, nil},
+	// an AUTO_INCREMENT key (see c18AutoKey): generated, NULL, DEFAULT or explicit
+	{"insert-auto-one", "INSERT INTO t (a, b) VALUES (?, ?)", 2, true, false, nil},
+	{"insert-auto-batch", "INSERT INTO t (a, b) VALUES (?, ?), (?, 8)", 3, true, false, nil},
+	{"insert-auto-null-key", "INSERT INTO t (id, a, b) VALUES (NULL, ?, ?)", 2, true, false, nil},
+	{"insert-auto-default-key", "INSERT INTO t (id, a, b) VALUES (DEFAULT, ?, 5)", 1, true, false, nil},
+	{"insert-auto-explicit-key", "INSERT INTO t (id, a, b) VALUES (?, ?, ?)", 3, true, false, map[int]int64{0: 30}},
 	// batches go through the multi-statement executors (literals only: a prepared batch cannot bind arguments)
 	{"multi-update-two-rows", "UPDATE t SET a = 5 WHERE id = 10; UPDATE t SET b = 6 WHERE id = 20", 0, true, false, nil},
 	{"multi-update-same-row", "UPDATE t SET a = 5 WHERE id = 10; UPDATE t SET a = 7, b = 6 WHERE id = 10", 0, true, false, nil},
 	{"multi-update-by-data", "UPDATE t SET a = 5 WHERE b > 3; UPDATE t SET b = 6 WHERE a < 9", 0, true, false, nil},
 	{"multi-delete", "DELETE FROM t WHERE id = 10; DELETE FROM t WHERE a > 4", 0, true, false, nil},
+	{"multi-delete-unconditional-first", "DELETE FROM t; DELETE FROM t WHERE id = 10", 0, true, false, nil},
+	{"multi-delete-unconditional-last", "DELETE FROM t WHERE a > 4; DELETE FROM t", 0, true, false, nil},
+	{"update-no-where", "UPDATE t SET b = ?", 1, true, false, nil},
+	{"delete-no-where", "DELETE FROM t", 0, true, false, nil},
 }
+
+func c18AutoKey(name string) bool { return strings.HasPrefix(name, "insert-auto-") }
 
 func c18RowKey(d *aDB, cells []int64) string {
 	var parts []string
@@ -251,7 +266,7 @@ func VerifC03LockKeys() { c18Run(false, true) }
 func c18Run(checkImages, checkLocks bool) {
 	k := vrt.Choice("statement", len(c18Stmts))
 	st := c18Stmts[k]
-	w := c18Setup(st.composite)
+	w := c18Setup(st.composite, c18AutoKey(st.name))
 	args := make([]driver.NamedValue, st.nargs)
 	names := []string{"arg0", "arg1", "arg2", "arg3", "arg4", "arg5"}
 	for i := range args {
@@ -429,7 +444,7 @@ func VerifC16InGtx() {
 	if !st.valid {
 		return
 	}
-	w := c18Setup(st.composite)
+	w := c18Setup(st.composite, c18AutoKey(st.name))
 	// the twin
 	twin := &aDB{table: w.d.table, cols: w.d.cols, pk: w.d.pk, auto: w.d.auto, failAt: -1, nextAuto: w.d.nextAuto}
 	for _, r := range w.d.rows {
@@ -493,8 +508,80 @@ func VerifC16InGtx() {
 		if q == st.query {
 			business++
 		} else {
-			vrt.Assert(strings.HasPrefix(uq, "SELECT"), "gtx/only-image-queries-are-added/"+st.name)
+			// read-only statements only: image SELECTs and the server-variable lookup of the insert executor
+			vrt.Assert(strings.HasPrefix(uq, "SELECT") || strings.HasPrefix(uq, "SHOW VARIABLES"), "gtx/only-image-queries-are-added/"+st.name)
 		}
 	}
 	vrt.Assert(business == 1, "gtx/business-statement-sent-exactly-once/"+st.name)
+}
+
+// VerifC16LockingRead (C16, second sentence, queries): inside a global
+// transaction a SELECT ... FOR UPDATE returns what the plain driver returns -
+// also when it matches nothing - and reaches the database exactly once.
+func VerifC16LockingRead() {
+	w := c18Setup(false)
+	w.lockable = true
+	at.LockConfig = rm.LockConfig{RetryInterval: 10 * time.Millisecond, RetryTimes: 2}
+	twin := &aDB{table: w.d.table, cols: w.d.cols, pk: w.d.pk, auto: w.d.auto, failAt: -1, nextAuto: w.d.nextAuto}
+	for _, r := range w.d.rows {
+		twin.rows = append(twin.rows, aRow{cells: append([]int64(nil), r.cells...), present: r.present})
+	}
+	args := []driver.NamedValue{{Ordinal: 1, Value: vrt.Int64("arg0")}}
+	q := c03Queries[vrt.Choice("sfu.form", len(c03Queries))]
+	plainRows, plainErr := (&aConn{twin}).QueryContext(context.Background(), q, args)
+	if vrt.Choice("inLocalTx", 2) == 1 {
+		tx, err := w.c.BeginTx(w.ctx, driver.TxOptions{})
+		vrt.Assert(err == nil && tx != nil, "gtx/begin-ok")
+	}
+	var rows driver.Rows
+	var err error
+	panicked := false
+	func() {
+		defer func() {
+			if recover() != nil {
+				panicked = true
+			}
+		}()
+		rows, err = w.c.QueryContext(w.ctx, q, args)
+	}()
+	vrt.Reach("gtx/locking-read")
+	vrt.Assert(!panicked, "gtx/locking-read-no-panic")
+	if panicked || w.d.bad != "" || twin.bad != "" {
+		return
+	}
+	vrt.Assert((err != nil) == (plainErr != nil), "gtx/locking-read-fails-iff-the-plain-driver-fails")
+	if err != nil || plainErr != nil {
+		return
+	}
+	vrt.Assert(rows != nil, "gtx/locking-read-returns-rows")
+	if rows == nil {
+		return
+	}
+	a, b := make([]driver.Value, 3), make([]driver.Value, 3)
+	same := true
+	n := 0
+	for {
+		ea, eb := rows.Next(a), plainRows.Next(b)
+		if ea != nil || eb != nil {
+			same = same && ea != nil && eb != nil
+			break
+		}
+		n++
+		for k := range a {
+			if a[k] != b[k] {
+				same = false
+			}
+		}
+	}
+	if n == 0 {
+		vrt.Reach("gtx/locking-read-matches-nothing")
+	}
+	vrt.Assert(same, "gtx/locking-read-returns-the-plain-drivers-rows")
+	business := 0
+	for _, j := range w.d.journal {
+		if j == q {
+			business++
+		}
+	}
+	vrt.Assert(business == 1, "gtx/locking-read-sent-exactly-once")
 }
